@@ -418,11 +418,14 @@ def check_acyclic(tname, spec, tag, key, cfg, kind, res, obs, case):
     stray = {n for n in per if n in name_of and name_of[n] not in count}
     if stray:
         fail('C14', tname, case, f'node events for nodes whose body never ran: {sorted(stray)}', 'events only for executed nodes')
+    saves = {}
+    for k, n, v in obs.saves:
+        if k == key:
+            saves.setdefault(n, []).append(v)
+    for n, got in saves.items():
+        if any(isinstance(v, BaseException) for v in got):
+            fail('C19', tname, case, f'{n}: a failure object was saved as the artifact: {got}', 'only final values are saved')
     if want[0] == 'ok':
-        saves = {}
-        for k, n, v in obs.saves:
-            if k == key:
-                saves.setdefault(n, []).append(v)
         for n in count:
             r = ref.memo.get(n)
             got = saves.get(nid(n), [])
